@@ -58,16 +58,33 @@ def sc_sequential(history=("raise", "return"), backend="main_thread_only"):
     return sc.finish()
 
 
-def sc_overlapping(second="return", backend="main_thread_only"):
-    """a remote_exec issued while an earlier body is still running: documented deadlock error, earlier one undisturbed"""
+def sc_overlapping(second="return", backend="main_thread_only", third=None):
+    """a remote_exec issued while an earlier body is still running: documented deadlock error, earlier one undisturbed;
+    third: one more remote_exec issued right after the first body's channel closed - it must run (a refusal in the history changes nothing)"""
     bodies = {"B0": "block", "B1": second}
-    sc = e2.GatewayScenario(f"overlapping[block,{second}]", backend, bodies, nworkers=1)
+    if third:
+        bodies["B2"] = third
+    sc = e2.GatewayScenario(f"overlapping[block,{second},{third}]", backend, bodies, nworkers=1)
     sc.add("main", MAIN, {"gw": sc.gw})
     main_id = 1 + list(sc.model.threads).index("main")
-    src = ("def p(gw, ch0, b0, ch1, b1):\n    await_(G.serving == 1)\n    gw._local_schedulexec(ch0, b0)\n    await_(G.ran_B0 == 1)\n"
-           "    gw._local_schedulexec(ch1, b1)\n    G.second_submitted = 1\n    await_(ch1.v_closed != 0)\n    G.release_B0 = 1\n    await_(ch0.v_closed != 0)\n"
-           "    gw._execpool.trigger_shutdown()\n    G.recv_done = 1\n")
-    sc.add("receiver", src, _args(sc, 2))
+    if third:
+        src = ("def p(gw, ch0, b0, ch1, b1, ch2, b2):\n    await_(G.serving == 1)\n    gw._local_schedulexec(ch0, b0)\n    await_(G.ran_B0 == 1)\n"
+               "    gw._local_schedulexec(ch1, b1)\n    G.second_submitted = 1\n    await_(ch1.v_closed != 0)\n    G.release_B0 = 1\n    await_(ch0.v_closed != 0)\n"
+               "    gw._local_schedulexec(ch2, b2)\n    await_(ch2.v_closed != 0)\n    gw._execpool.trigger_shutdown()\n    G.recv_done = 1\n")
+    else:
+        src = ("def p(gw, ch0, b0, ch1, b1):\n    await_(G.serving == 1)\n    gw._local_schedulexec(ch0, b0)\n    await_(G.ran_B0 == 1)\n"
+               "    gw._local_schedulexec(ch1, b1)\n    G.second_submitted = 1\n    await_(ch1.v_closed != 0)\n    G.release_B0 = 1\n    await_(ch0.v_closed != 0)\n"
+               "    gw._execpool.trigger_shutdown()\n    G.recv_done = 1\n")
+    sc.add("receiver", src, _args(sc, 3 if third else 2))
+    if third:
+        c2 = sc.closed_var(2)
+        want2 = {"return": e2.CLOSE_OK, "raise": e2.CLOSE_ERROR}[third]
+        sc.bad += [
+            ("custom", "false_deadlock:2", lambda enc, K: z3.Or([enc.var(i, c2) == INT0 + e2.CLOSE_DEADLOCK for i in range(K + 1)]), lambda g, d, b: g.get("closed2", 0) == e2.CLOSE_DEADLOCK),
+            ("custom", "third_not_run_in_main", lambda enc, K: z3.And(z3.Not(enc.can_move(K)), z3.Or(enc.var(K, "G.ran_B2") != INT0 + 1, enc.var(K, "G.thr_B2") != INT0 + main_id, enc.var(K, c2) != INT0 + want2)),
+             lambda g, d, b: g.get("ran_B2", 0) != 1 or g.get("thr_B2", 0) != main_id or g.get("closed2", 0) != want2),
+        ]
+        sc.observed += ["ran_B2", "thr_B2"]
     c0, c1 = sc.closed_var(0), sc.closed_var(1)
     sc.bad += [
         ("custom", "second_not_refused", lambda enc, K: z3.And(z3.Not(enc.can_move(K)), enc.var(K, c1) != INT0 + e2.CLOSE_DEADLOCK), lambda g, d, b: g.get("closed1", 0) != e2.CLOSE_DEADLOCK),
@@ -94,6 +111,7 @@ def specs(tier: str):
     for k in kinds:
         add("sc_sequential", sync=(k == "block" and not thorough), history=(k,))
     add("sc_overlapping", second="return")
+    add("sc_overlapping", second="return", third="return")
     # two-body histories: context switches at synchronisation operations (quick); every shared access (thorough)
     pairs = list(itertools.product(kinds, repeat=2)) if thorough else [("raise", "return"), ("kbd", "return")]
     for h in pairs:
